@@ -2,6 +2,7 @@ import FsutilModel.Walk
 import FsutilModel.Model.WalkB
 import FsutilModel.WalkBuild
 import FsutilModel.ByteOrd
+import FsutilModel.WalkComplete
 /-! # C09 — Walk lists every entry once, parents first, in protocol path order -/
 namespace Fsm.C09
 
@@ -44,6 +45,13 @@ theorem walk_lists_each_entry_once (pre : Path) (t : Node) (h : WF t) : (walk pr
 theorem walk_order_lists_once (paths : List Path) (h : ∀ p ∈ paths, ∀ c ∈ comps p, NameOK c) :
     (walk [] (buildTree paths)).Nodup :=
   walk_lists_each_entry_once [] _ (buildTree_WF paths h)
+
+/-- Every entry is listed: whatever set of paths a snapshot contains (any number, any depth, given in any
+order, with or without their parents), each of them is visited by the walk of the tree built from
+them. Together with `walk_order_lists_once` and `walk_order_ascending`: each exactly once, in protocol order. -/
+theorem walk_lists_every_entry (paths : List Path) (h : ∀ p ∈ paths, ∀ c ∈ comps p, NameOK c) (x : Path)
+    (hx : x ∈ paths) : x ∈ walk [] (buildTree paths) :=
+  buildTree_lists paths h x hx
 
 /-- non-vacuity: the tree a/{b}, "a b", "a-b" is well-formed and walks as a, a/b, a b, a-b -/
 example : walk [] (.dir [([97], .dir [([98], .file)]), ([97, 32, 98], .file), ([97, 45, 98], .file)])
